@@ -23,6 +23,15 @@ def site_index():
     return idx
 
 
+_reach = {}
+
+
+def reach_of(prog, fid):
+    if fid not in _reach:
+        _reach[fid] = set(prog.reachable([fid]))
+    return _reach[fid]
+
+
 def run(chk):
     prog = mir.prog()
     n = refs.check_table_current(chk, "R09-table")
@@ -112,6 +121,52 @@ def run(chk):
             if not b0.dominates(rb, mb):
                 chk.add(Finding("R09-order", "R09-order::%s::%s" % (path, mfid.split("::")[-1]), "%s moves %s out of the merged-in module before %s rewrites the reference %s (-> %s): the moved copy keeps the old name and silently points to the destination module's element" % (mfid, field, rf, path, ns), b0.where(b0.blocks[mb]["t"]["ln"])))
     chk.rule("R09-order", "reference sites of the merged-in module rewritten before the holder field is moved to the destination (pairs of rename step / move step)", nord, floor=30)
+
+    # ordering 2: the decision "identical / conflict" for the elements of namespace Nc (calculate_item_actions) compares elements of the
+    # merged-in module with `==`, reference fields included.  Every rewrite of a reference held by those elements that is driven by a
+    # *different* namespace's rename table therefore comes before that comparison (otherwise an element of B that refers to a renamed
+    # target still compares equal to A's element of the same name and is dropped, or is compared under a name that no longer exists)
+    T = refs.table()
+    ncmp = 0
+    calls_c = [ev for ev in mf.S.events if ev[0] == "call" and ev[1] == "merge::calculate_item_actions"]
+    for evc in calls_c:
+        a0 = [t for t in evc[2][0] if not (isinstance(t, tuple) and t[0] == "var")]
+        a1 = [t for t in evc[2][1] if not (isinstance(t, tuple) and t[0] == "var")]
+        key = ("call", "merge::calculate_item_actions", (sorted(a0, key=repr)[0] if a0 else None, sorted(a1, key=repr)[0] if a1 else None))
+        nsc = mf.tables.get(key)
+        if nsc is None:
+            continue
+        lists = set(T["namespaces"].get(nsc, []))
+        fc = evc[3]
+        bc = prog.bodies[fc]
+        Sfc = mf.A.summary(fc)
+        # position of this comparison and of the rewrites inside the function that makes the comparison
+        blk_c_local = [x[6] for x in Sfc.events if x[0] == "call" and x[1] == "merge::calculate_item_actions" and x[3] == fc and x[4] == evc[4]]
+        wr_local = {}
+        for x in Sfc.events:
+            if x[0] == "write":
+                wr_local.setdefault((x[3], x[4]), set()).add(x[5])
+            elif x[0] == "call" and x[1].endswith("ItemList::rename_item"):
+                wr_local.setdefault((x[3], x[4]), set()).add(x[6])
+        for (path, root, ns, which, kpath, kroot, lk, ev) in rw:
+            if ns is None or which != "#1" or root != ("param", 2) or not path or ns == nsc:
+                continue
+            if path.split("/")[0] not in lists:
+                continue
+            ncmp += 1
+            ok = None
+            loc = wr_local.get((ev[3], ev[4]))
+            if loc and blk_c_local:
+                ok = all(any(bw != bcmp and bc.dominates(bw, bcmp) for bw in loc) for bcmp in blk_c_local)
+            else:
+                # different steps of merge_modules: positions of the two steps there
+                bw, bcmp = ev[5], evc[6]
+                if bw != bcmp:
+                    ok = b0.dominates(bw, bcmp)
+            fr = ev[3]
+            if ok is False:
+                chk.add(Finding("R09-compare", "R09-compare::%s::%s" % (nsc, path), "%s decides which %s elements of the merged-in module are identical to the destination's before %s has rewritten their reference %s (-> %s): an element that refers to a renamed target is compared with its old reference text" % (fc, nsc, fr, path, ns), bc.where(evc[4])))
+    chk.rule("R09-compare", "(comparison of a namespace's elements, rewrite of a reference inside those elements under another namespace's table) pairs: rewrite first", ncmp, floor=20)
 
     # control dependence of the rewrites
     nctrl = 0
